@@ -46,6 +46,14 @@ CLAIMED = {
             "normalisation of the pieces' knot vectors, decomposition loop with u-major order for 'uv') is tied to operations.split_curve / split_surface_u / split_surface_v / "
             "decompose_curve / decompose_surface by exact correspondence; the exact oracle checks every piece against the original under the affine domain map, piece counts and order, input untouched.",
             "Not proved: the assembled theorem 'piece = original on its sub-interval' (oracle + correspondence only)."),
+    'C02': ("7/C02",
+            "Lean theorems: the derivative of the span polynomial (de Boor scheme with the indeterminate as parameter) is p times the degree p-1 evaluation of the scaled "
+            "control-point differences on the same span (A3.3/A3.4, first derivative, any degree / knots / span); A4.2's rational derivatives solve the Leibniz system of every "
+            "order. The model (A3.3/A3.4 for all orders, basis derivatives specified as derivatives of unit-control-point curves, A4.2, A4.4 as coded, tensor surface derivatives) "
+            "is tied to Curve.derivatives / Surface.derivatives for both evaluator families (A3.2/A3.6 via A2.3 and A3.4/A3.8), rational and not, orders 0..degree+2, by exact "
+            "correspondence; an independent exact jet-arithmetic oracle checks every returned vector, the hodograph constructors, tangent and normal.",
+            "Not proved: orders >= 2 and the surface case as Lean theorems about the model functions; A2.3's table. Unit length of normalised vectors is floating point (oracle, 1e-12). "
+            "F-02 (alternative surface evaluator, order > degree_u) was reported with a replay and fixed; F-02b (derivative_surface on C0 knots) is a recorded finding."),
     'C03': ("7/C03",
             "Lean theorems over the executable model (any degree, any non-decreasing knot function, any parameter, any ordered field): "
             "linear span search returns the unique half-open interval; A2.2 has p+1 non-negative values summing to 1 and equals the Cox-de Boor "
